@@ -29,7 +29,8 @@ EXPLANATION = (
     'tables, for every namespace unconditionally. R3: seeds -- IO types of every whitelisted '
     'route (get_route_io_data_types_for_route unwraps List/Nullable and keeps every other '
     'composite or alias), route docs, namespace docs, the datatype whitelist. Decides closure '
-    'mechanics, not minimality.')
+    'mechanics, not minimality.'
+    ' RD (decision drift, stonelint.conddrift): the tests of the functions this property is anchored in (stonelint.ownership) are compared with reference/conditions.json; a relation, polarity or connective changed over the same operands, or an operand purely added or dropped, is a violation; re-spellings and new or removed tests are not claimed.')
 ASSUMPTIONS = [
     'a reference-bearing attribute is one assigned, in a constructor or set_* method of an IR '
     'class, from a parameter named like a data type (data_type, *_data_type, parent_type, fields, '
@@ -336,3 +337,7 @@ def run(pm, ctx):
     ctx.check('C20-R3', ok, 'kept routes = whitelisted routes + routes referenced from kept docs',
               flt.loc, msg='the set of kept routes changed',
               key='C20-R3|%s|kept-routes' % flt.qualname)
+
+    from ..conddrift import run_decisions
+    from ..ownership import OWN
+    run_decisions(pm, ctx, 'C20-RD', OWN['C20'])
